@@ -191,7 +191,7 @@ def check(run):
     # a share of runs in which chemostated entries matter as sources ("exempt from the change but not from the propensity"):
     # a well stocked flagged cell or species next to nearly empty free ones, diffusion setting the pace
     from . import c03
-    cases += [c03.make_reservoir_case(rng, run.tier) for _ in range(n // 4)]
+    cases += [c03.make_reservoir_case(rng, run.tier, leaky=True) for _ in range(n // 4)]
     items = build_items(cases, run)
     for it in items:
         c = it["case"]
